@@ -16,6 +16,23 @@ IS = ["k", "m"]
 LOOP_VARS = ["i", "j", "l"]
 
 
+HELPERS = {
+    "h_sum": ["do i = 1, n", "  x = x + arr(i)", "end do"],
+    "h_scale": ["do i = 1, n", "  arr(i) = arr(i) * 2.0", "end do"],
+    "h_first": ["arr(1) = x"],
+    "h_fill": ["do i = 1, n", "  arr(i) = x", "end do"],
+    "h_shift": ["do i = 2, n", "  arr(i - 1) = arr(i) + x", "end do"],
+}
+
+
+def helper_text(name):
+    body = "\n".join("  " + ln for ln in HELPERS[name])
+    return (f"subroutine {name}(arr, n, x)\n  integer, intent(in) :: n\n"
+            f"  real, dimension(n), intent(inout) :: arr\n"
+            f"  real, intent(inout) :: x\n  integer :: i\n{body}\n"
+            f"end subroutine {name}\n")
+
+
 def _sub(rng, var, shape, wild):
     """Subscript expression in bounds for `var` running over `shape`."""
     fam = [(8, "i")]
@@ -160,7 +177,16 @@ def gen_program(rng):
     for _ in range(rng.randint(2, 5)):
         kind = weighted(rng, [(6, "loop1"), (2, "loop2"), (1.5, "scal"),
                               (1, "time"), (0.8, "hostif"),
-                              (0 if clean else 1, "hostarr")])
+                              (0 if clean else 1, "hostarr"),
+                              (1.2, "call")])
+        if kind == "call":
+            # a call of a routine of the same file with a whole array: the
+            # argument is read *and* written as far as PSyclone can tell
+            hname = pick(rng, sorted(HELPERS) if not clean else
+                         ["h_sum", "h_scale", "h_fill"])
+            body.append({"k": "callstmt", "f": hname,
+                         "args": [pick(rng, R1), "n", pick(rng, RS)]})
+            continue
         if kind == "loop1":
             body.append(gen_loop1(rng, cfg))
         elif kind == "loop2":
@@ -192,6 +218,8 @@ def gen_program(rng):
 
 def touches_array(st):
     found = []
+    if st.get("k") == "callstmt":
+        return True
 
     def rec(e):
         if isinstance(e, dict):
@@ -276,7 +304,22 @@ def program_text(prog):
     for st in prog["body"]:
         lines += stmt_text(st, 1)
     lines.append(f"end subroutine {prog['name']}")
-    return "\n".join(lines) + "\n"
+    text = "\n".join(lines) + "\n"
+    used = sorted({st["f"] for st in _all_stmts(prog["body"])
+                   if st["k"] == "callstmt"})
+    for hname in used:
+        text += helper_text(hname)
+    return text
+
+
+def _all_stmts(stmts):
+    for st in stmts:
+        yield st
+        if st["k"] == "do":
+            yield from _all_stmts(st["body"])
+        elif st["k"] == "if":
+            yield from _all_stmts(st["then"])
+            yield from _all_stmts(st.get("else", []))
 
 
 def gen_inputs(rng):
@@ -356,6 +399,8 @@ def access_sequence(stmts):
                 for s in st["lhs"]["s"]:
                     reads(s)
                 seq.append((st["lhs"]["n"], "W"))
+        elif st["k"] == "callstmt":
+            seq.append((st["args"][0], "RW"))
         elif st["k"] == "do":
             reads(st["lo"])
             reads(st["hi"])
